@@ -1,4 +1,5 @@
 import AvoVerif.Props.C02
+import AvoVerif.Props.C02Term
 #print axioms Avo.Live.liveness_exact
 #print axioms Avo.Live.liveout_exact
 #print axioms Avo.Live.liveness_order_irrelevant
@@ -12,3 +13,6 @@ import AvoVerif.Props.C02
 #print axioms Avo.MaskSet.update_unchanged
 #print axioms Avo.LiveBool.complete_of_fix
 #print axioms Avo.LiveBool.visit_sound
+#print axioms Avo.Live.liveness_terminates
+#print axioms Avo.Live.liveness_exact_total
+#print axioms Avo.Live.iter_count
